@@ -9,9 +9,11 @@ package vrt
 
 import (
 	"bytes"
+	"cmp"
 	"fmt"
 	"reflect"
 	"runtime"
+	"sort"
 	"strconv"
 	"sync"
 	"testing/synctest"
@@ -536,4 +538,19 @@ func Trace(name string, args ...any) {
 	s.mu.Lock()
 	s.Events = append(s.Events, Event{Name: name, Args: args})
 	s.mu.Unlock()
+}
+
+// SortedValues returns the values of m in ascending key order (deterministic replacement of a
+// value-only range over a map).
+func SortedValues[K cmp.Ordered, V any](m map[K]V) []V {
+	keys := make([]K, 0, len(m))
+	for k := range m {
+		keys = append(keys, k)
+	}
+	sort.Slice(keys, func(i, j int) bool { return keys[i] < keys[j] })
+	out := make([]V, 0, len(keys))
+	for _, k := range keys {
+		out = append(out, m[k])
+	}
+	return out
 }
